@@ -167,3 +167,59 @@ func ZZ_C19_consistent_renaming() {
 	}
 	zz.Reach("end")
 }
+
+// Blankspace between the '>' tokens that close template lists and a following '=' (C19, round
+// 4): WGSL's template-list discovery makes `array<vec2<f32>, 2>=e`, `ptr<function, vec2<f32>>=&v`
+// and `array<array<vec2<u32>, 2>, 2>=e` (lexed with the tokens '>=', '>>=' and '>>' '>=') the
+// same programs as their spaced spellings. Each site is rendered with the separator # replaced
+// by nothing, by a symbolic blankspace byte, or by an empty block comment; all spellings must be
+// accepted and give the SPIR-V of the spaced one. Real shift-assign / comparison sites are
+// included as controls (the split must not fire there).
+var zzGlueSites = []struct{ name, decl, body string }{
+	{"single-close-let", "", "let x: vec2<f32>#=#vec2<f32>(1.0, 2.0); buf[0] = x.y;"},
+	{"double-close-ptr-let", "", "var v = vec2<f32>(3.0, 4.0); let p: ptr<function, vec2<f32>#>#=#&v; buf[0] = (*p).y;"},
+	{"double-close-array-var", "", "var a: array<vec2<f32>, 2#>#=#array<vec2<f32>, 2>(vec2<f32>(1.0, 2.0), vec2<f32>(3.0, 4.0)); buf[0] = a[1].x;"},
+	{"triple-close-array-var", "", "var a: array<array<vec2<f32>, 2>, 2#>#=#array<array<vec2<f32>, 2>, 2>(); a[1][0].x = 5.0; buf[0] = a[1][0].x;"},
+	{"double-close-module-private", "var<private> g: array<vec2<f32>, 2#>#=#array<vec2<f32>, 2>(vec2<f32>(1.0, 2.0), vec2<f32>(3.0, 4.0));", "buf[0] = g[1].y;"},
+	{"double-close-module-const", "const K: array<vec2<f32>, 2#>#=#array<vec2<f32>, 2>(vec2<f32>(1.0, 2.0), vec2<f32>(3.0, 4.0));", "var k = K; buf[0] = k[1].y;"},
+	{"double-close-call-then-compare", "", "let b = array<vec2<f32>, 2#>#(vec2<f32>(1.0, 2.0), vec2<f32>(3.0, 4.0)); buf[0] = select(0.0, 1.0, b[0].x >=#b[1].x);"},
+	{"control-shift-assign", "", "var s = 64u; s >>=#1u; s <<=#2u; buf[0] = f32(s >>#2u);"},
+}
+
+func ZZ_C19_template_close_glue() {
+	t := zzGlueSites[zz.Choice("site", len(zzGlueSites))]
+	zz.Cell(t.name)
+	render := func(sep string) string {
+		src := "@group(0) @binding(0) var<storage, read_write> buf: array<f32, 4>;\n" + t.decl + "\n@compute @workgroup_size(1) fn main() {\n" + t.body + "\n}"
+		out := make([]byte, 0, len(src)+8)
+		for i := 0; i < len(src); i++ {
+			if src[i] == '#' {
+				out = append(out, sep...)
+			} else {
+				out = append(out, src[i])
+			}
+		}
+		return string(out)
+	}
+	want, ok := zzCompileSPV(render(" "))
+	zz.Assert(ok, "the spaced spelling is rejected")
+	sep := ""
+	switch zz.Choice("separator", 3) {
+	case 1:
+		sep = zzBlankByte("blank")
+	case 2:
+		sep = "/**/"
+	}
+	got, ok2 := zzCompileSPV(render(sep))
+	zz.Assert(ok2, "program rejected after removing/changing the blankspace around template-closing '>' (accepted when spaced)")
+	if ok && ok2 {
+		same := len(got) == len(want)
+		for i := 0; same && i < len(got); i++ {
+			if got[i] != want[i] {
+				same = false
+			}
+		}
+		zz.Assert(same, "generated SPIR-V differs after removing/changing the blankspace around template-closing '>'")
+	}
+	zz.Reach("end")
+}
